@@ -26,3 +26,10 @@ func Assert(label string, c bool)
 func Reach(label string)
 func Note(s string)
 func Symbolic() bool
+
+// Shared-memory write monitor: cells reachable from the frozen roots must not be the target of a plain store.
+func FreezeDeep(root interface{}, what string)
+func FreezeShallow(root interface{}, what string)
+func FreezeGlobals()
+func FrozenWrites() int
+func FrozenWriteNote() string
